@@ -249,18 +249,22 @@ def check_text(text, env, part, seen, deep=True):
     return
 
 
-def must_refuse(text, env_factory, part, why, overridable):
-    """The selector must be refused at creation or activation (never silently accepted)."""
+def must_refuse(text, env_factory, part, why, overridable, env=None, probe_type=None):
+    """The selector (or: one probe made of several selectors, when text is a tuple) must be refused at
+    creation or activation (never silently accepted).  env: reuse an environment, i.e. the same functions
+    and therefore the same interned selector objects as an earlier attempt."""
     from ptera.probe import Probe, OverridableProbe
 
     part["cases"] += 1
     part["evaluations"] += 1
     part["steps"] += 1
     cls = OverridableProbe if overridable else Probe
-    env = env_factory()
+    env = env_factory() if env is None else env
+    texts = text if isinstance(text, tuple) else (text,)
+    text = " + ".join(texts)
     stage = "create"
     try:
-        p = cls(text, env=env)
+        p = cls(*texts, env=env, **({"probe_type": probe_type} if probe_type else {}))
         stage = "activate"
         p.__enter__()
     except BaseException as e:
@@ -403,6 +407,17 @@ def work(unit, tier):
                     must_refuse(t, make_env, part, why, ov)
         for t in NO_FOCUS_OVERRIDABLE:
             must_refuse(t, make_env, part, "no-focus-overridable", True)
+            # ... also next to a selector that has a focus, in one overridable probe
+            must_refuse(("f > x", t), make_env, part, "no-focus-overridable", True)
+            must_refuse((t, "f > x"), make_env, part, "no-focus-overridable", True)
+        for t in INJECTIONS["second-focus-without-first"]:
+            # the verdict does not depend on what was attempted before on the same functions, nor on the
+            # kind of probe asked for
+            for order in ((True, False), (False, True)):
+                env = make_env()
+                for ov in order:
+                    must_refuse(t, make_env, part, "second-focus-without-first", ov, env=env)
+            must_refuse(t, make_env, part, "second-focus-without-first", True, probe_type="immediate")
         try:
             from pv.gen import selgen
 
